@@ -26,6 +26,13 @@ def gen(tier, rng):
         yield nodegen.self_dial_script(rng, "self-dial-%d" % m, m)
     yield nodegen.translated_script(rng, "translated")
     yield nodegen.advertised_script(rng, "advertised")
+    yield nodegen.translated_long_script(rng, "translated-long")
+    # meshes whose nodes enabled 'plain' (unencrypted sessions): the peer exchange must work all the same
+    plain = nodegen.algos_str(True, [])
+    yield nodegen.c14_graph_script(rng, "graph-plain-3", 3, [(1, 2), (2, 3)], seconds=10, algos=plain)
+    # (three nodes: a handshake payload then lists at most one peer.  With more, the hash-map order of the peer list inside an UNSEALED handshake payload
+    #  becomes visible one step after the attempt was created, which the model glue cannot follow: DESIGN.md section 12.)
+    yield nodegen.c14_graph_script(rng, "graph-plain-3b", 3, [(3, 1), (2, 3)], seconds=10, algos=nodegen.algos_str(True, [("chacha", 400.0)]))
     # peer lists with arbitrary content from an established peer: the receiver itself under foreign addresses, known nodes under unknown addresses
     for i in range(6 if thorough else 2):
         yield nodegen.announce_script(rng, "announce-%d" % i, 120 if thorough else 50)
